@@ -5,6 +5,7 @@ CONSTANTS
   MaxShift = 40
   Fams = {"pair", "flat", "range", "func", "perm", "num", "bits", "wide", "xperm", "pow", "powbig"}
   MaxWide = 3
+  MaxWideB = 2
   MaxXPerm = 4
   PowExps = {6, 31, 32, 33, 53, 63, 64, 65, 100, 127, 128, 255, 256, 400, 512, 1000}
   Export = TRUE
